@@ -92,4 +92,36 @@ CHECKS = {
                      'registration orders; at top level and inside an enclosing token) the resulting token tree must tile the source exactly and '
                      'be one of the outcomes the statement allows; random sets of regex-defined custom types check the tiling clauses.',
                 note='Where the statement is silent a set of outcomes is accepted (listed in the assumptions of the evidence file).'),
+    'C03': dict(category='exploration', design_ref='DESIGN.md section 5, C03 and section 3.1 (generator G)',
+                technique='reference-model monitor: a seeded grammar generator writes tree, spelling and expected HTML independently; the real parser+renderer output is compared after the spec driver\'s normalisation',
+                text='Documents are generated from trees of all listed constructs (depth <= 4, ~40 blocks) with the spellings the spec leaves free; '
+                     'a systematic sweep puts each leaf construct under every container path of length <= 3. The HTML written straight from '
+                     'the tree must equal the rendered HTML. 12k documents quick / 77k thorough.',
+                note='The generator is the trusted base (safety rules R1-R10, each citing a spec clause; tools/genmin.py minimises disagreements '
+                     'on the tree for triage). Nine defect shapes found this way are known findings with pinned witnesses and are switched off in '
+                     'the generator so that a NEW disagreement is always reported.'),
+    'C07': dict(category='exploration', design_ref='DESIGN.md section 5, C07',
+                technique='reference-model monitor: first-wins case-folding resolver decides the expected HTML and definition table of generated documents',
+                text='Definitions (1-6, with case / whitespace / Unicode-folding label families, escaped titles, angle destinations) are inserted at '
+                     'random block boundaries of any nesting level of a generated skeleton; uses in the three reference forms (links and '
+                     'images, some labels broken over two lines), near-definitions that must stay text, plus a placement sweep over a fixed '
+                     '3-level skeleton. Rendered HTML and Document.footnotes are compared with the model.',
+                note='Label normalisation follows the spec text (space/tab/line ending); labels with other whitespace are outside the domain.'),
+    'C13': dict(category='exploration', design_ref='DESIGN.md section 5, C13',
+                technique='reference-model monitor: the generator records the source line of every block it writes; token line_number attributes are compared',
+                text='For generated documents whose token structure equals the generated tree, every block token at any depth (13 classes incl. '
+                     'table rows/cells and the header row) must report the line on which the generator wrote its first character; special shapes '
+                     '(containers beginning with a blank line, lazy lines, definitions between blocks, leading blank lines) are required to occur.',
+                note='Documents whose structure differs are skipped and counted (that is C03\'s verdict).'),
+    'C17': dict(category='exploration', design_ref='DESIGN.md section 5, C17',
+                technique='taint + structure monitor on the LaTeX output: sentinels round every text-carrying token attribute, strict scan of groups, environments, control words, verbatim terminators and URL arguments',
+                text='Every text-carrying attribute of the parsed tree is bracketed with origin-naming sentinels before rendering; the output scanner '
+                     'checks group balance, begin/end nesting, a closed control-word vocabulary, that tainted regions contain specials only in '
+                     'the renderer\'s escaped forms, that verbatim regions do not contain their terminator and that math regions are well-formed.',
+                note='Three call-site findings are listed (Image.src, CodeFence.language, lstlisting terminator). In URL arguments & and _ may stay raw.'),
+    'C19': dict(category='exploration', design_ref='DESIGN.md section 5, C19',
+                technique='reference-model monitor: outline model (filter, then nest by level) compared with TocRenderer.toc on generated documents x option sets',
+                text='Generated documents with 1-10 headings (ATX/setext, in and outside containers) are rendered under random depth / omit_title / '
+                     'filter options and the resulting List token is compared entry by entry (text, order, nesting) with the model.',
+                note='Documents whose qualifying headings do not form an outline are only counted (nesting is undefined for them).'),
 }
